@@ -54,3 +54,10 @@ pub const AGG_CHUNK: usize = 256;
 
 /// Vectorization dimension for sort.
 pub const SORT_CHUNK: usize = 256;
+
+// verification hook (guard: --cfg ipa_verif)
+#[cfg(all(test, ipa_verif))]
+#[allow(warnings, clippy::all, clippy::pedantic)]
+pub(crate) mod verif {
+    include!(concat!(env!("IPA_VERIF_DIR"), "/h7_ipa_prf.rs"));
+}
